@@ -81,7 +81,7 @@ pub fn check_prog(p: &Prog, rep: &mut Report) {
     let text = match generate(&p.src, &cfg) {
         Outcome::Ok(t) => t,
         other => {
-            rep.filtered(&format!("generator not Ok: {}", other.class()));
+            rep.generation_failed(p.key.clone(), &other.class(), &p.src, &cfg);
             return;
         }
     };
